@@ -14,12 +14,15 @@
   * `cache_transparent` — under the invariant `CacheOK` (every cached entry is the pattern of its key; keys
     carry the operator family since the D34 fix) a comparison gives the verdict it gives with an empty
     cache and preserves the invariant; `cacheOK_nil`.
-  Not a theorem: that the model's regex *parser* turns the escaped pattern text into that atom chain
-  (`rxParse (globToPattern p) = anchored (globAtoms p)`): it is tested on every generated pattern by the
-  check (model-internal test, labelled as such) and the composed behaviour is validated against the real
-  `regex` crate in-process; user regexes (`=~`) are compared on the modelled fragment only.
+  * `glob_pattern_parses`, `like_pattern_parses` (Lemmas/GlobParse, induction over the pattern with a fuel
+    bound) — the model's regex parser turns the pattern text produced by `convert_glob_to_pattern` /
+    `convert_like_to_pattern` into exactly that anchored atom chain, for every pattern; hence
+    `glob_end_to_end`, `like_end_to_end`: compiling the pattern text and matching is the textbook match.
+  The regex crate itself is external: the composed behaviour is validated against it in-process on every run;
+  user regexes (`=~`) are compared on the modelled fragment only.
 -/
 import Fsel.Lemmas.Glob
+import Fsel.Lemmas.GlobParse
 
 namespace Fsel.C12
 open Fsel GlobL
@@ -34,6 +37,56 @@ theorem glob_textbook (p s : Str) : (anchored (globAtoms p)).isMatch s = atomsMa
 /-- LIKE matching is the textbook definition -/
 theorem like_textbook (p s : Str) : (anchored (likeAtoms p)).isMatch s = atomsMatch (likeAtoms p) s :=
   anchored_isMatch _ _
+
+theorem glob_body : ∀ p : Str,
+    p.flatMap (fun c => if c == '*' then ['.', '*'] else if c == '?' then ['.'] else regexEscape c) = GlobP.atomsText (globAtoms p)
+  | [] => rfl
+  | c :: r => by
+    have ih := glob_body r
+    simp only [List.flatMap_cons, GlobP.atomsText, globAtoms, List.map_cons] at ih ⊢
+    rw [ih]
+    congr 1
+    by_cases h1 : c = '*'
+    · subst h1; rfl
+    · by_cases h2 : c = '?'
+      · subst h2; rfl
+      · simp [h1, h2, GlobP.atomText]
+
+theorem glob_text (p : Str) : globToPattern p = ofS "^(?is)" ++ GlobP.atomsText (globAtoms p) ++ ['$'] := by
+  simp only [globToPattern, glob_body]
+
+theorem like_body : ∀ p : Str,
+    p.flatMap (fun c => if c == '%' then ['.', '*'] else if c == '_' then ['.'] else regexEscape c) = GlobP.atomsText (likeAtoms p)
+  | [] => rfl
+  | c :: r => by
+    have ih := like_body r
+    simp only [List.flatMap_cons, GlobP.atomsText, likeAtoms, List.map_cons] at ih ⊢
+    rw [ih]
+    congr 1
+    by_cases h1 : c = '%'
+    · subst h1; rfl
+    · by_cases h2 : c = '_'
+      · subst h2; rfl
+      · simp [h1, h2, GlobP.atomText]
+
+theorem like_text (p : Str) : likeToPattern p = ofS "^(?is)" ++ GlobP.atomsText (likeAtoms p) ++ ['$'] := by
+  simp only [likeToPattern, like_body]
+
+/-- the pattern text of a glob parses to the anchored atom chain — for every pattern -/
+theorem glob_pattern_parses (p : Str) : rxParse (globToPattern p) = .ok (anchored (globAtoms p)) := by
+  rw [glob_text]; exact GlobP.rxParse_anchored _
+
+theorem like_pattern_parses (p : Str) : rxParse (likeToPattern p) = .ok (anchored (likeAtoms p)) := by
+  rw [like_text]; exact GlobP.rxParse_anchored _
+
+/-- end to end: compile the glob's pattern text, match: the textbook whole-string match -/
+theorem glob_end_to_end (p s : Str) :
+    (match rxParse (globToPattern p) with | .ok re => some (re.isMatch s) | _ => none) = some (atomsMatch (globAtoms p) s) := by
+  rw [glob_pattern_parses]; simp [glob_textbook]
+
+theorem like_end_to_end (p s : Str) :
+    (match rxParse (likeToPattern p) with | .ok re => some (re.isMatch s) | _ => none) = some (atomsMatch (likeAtoms p) s) := by
+  rw [like_pattern_parses]; simp [like_textbook]
 
 /-- sanity of the textbook matcher on the D32 witness: `a+b.*` matches `a+b.txt`, not `aab.txt` -/
 example : atomsMatch (globAtoms (ofS "a+b.*")) (ofS "a+b.txt") = true ∧
